@@ -730,8 +730,17 @@ func (s *Sim) oracleHTTPDone(h *HTTPCall) {
 		// judged against the reference renderer when nothing in the graph moved
 		// while the request was served and every get request got a proper answer
 		stable := true
-		for _, r := range during {
-			if r.Type == "get" && r.Outcome != "ok" {
+		s.mu.Lock()
+		for _, r := range s.tr.reqs {
+			// a get request alive at some moment of this call that did not get a proper answer
+			if r.Type == "get" && r.Outcome != "ok" && (r.Seq > h.Seq || !r.Delivered || r.DlvSeq > h.Seq) {
+				stable = false
+			}
+		}
+		s.mu.Unlock()
+		for _, o := range s.HTTP {
+			if o != h && o.Seq < h.DoneSeq && (!o.Done || o.DoneSeq > h.Seq) {
+				// another HTTP request at the same time shares the loads
 				stable = false
 			}
 		}
